@@ -125,6 +125,13 @@ class SpecTask(Task):
                 else:
                     out += float(np.sum(np.abs(np.array(_flat([v]) if not isinstance(v, (list, tuple, np.ndarray)) else _flat(v), dtype=float))))
             return out
+        if self.data["obj"] == "helperdist":
+            # the README's idiom: the objective hands rows of DATA THAT BELONGS TO THE TASK (float64 array: rows are views) to the library's own distance helper
+            from pyvolutionary import helpers as H_
+            c = self.data["coords"]
+            v = np.array(_flat(x), dtype=float)
+            pt = v[:2] if len(v) >= 2 else np.array([v[0], 0.0])
+            return float(sum(H_.distance(c[k], pt) for k in range(len(c))))
         if self.data["obj"].startswith("noisy:"):
             # a measurement, not a function: the same position evaluated again gives another value (a deterministic pseudo-noise of the evaluation count, so runs
             # replay).  Legal: what an agent's cost IS is what was measured when it was built; a kept agent keeps it.
@@ -161,6 +168,7 @@ def build_vars(vspecs, names=None):
         elif k == "binary": vs.append(BinaryVariable(name=n, n_vars=s))
         elif k == "perm": vs.append(PermutationVariable(name=n, items=list(range(s))))
         elif k == "permstr": vs.append(PermutationVariable(name=n, items=[f"c{j:02d}" for j in range(s)]))      # string labels
+        elif k == "permcase": vs.append(PermutationVariable(name=n, items=[(f"c{j // 2:02d}" if j % 2 else f"C{j // 2:02d}") for j in range(s)]))      # case twins: c00 / C00 ...
         else: raise ValueError(k)
     return vs
 
@@ -170,6 +178,8 @@ def build_task(t: dict, record: str | None = None):
     kw = {}
     if t.get("weights") is not None: kw["objective_weights"] = t["weights"]
     if t.get("seed") is not None: kw["seed"] = t["seed"]
+    if t.get("coords"):
+        data["coords"] = np.arange(2 * t["coords"], dtype=float).reshape(t["coords"], 2) / 3.0
     task = SpecTask(variables=build_vars(t["vars"], t.get("names")), minmax=t.get("minmax", "min"), data=data, **kw)
     if t.get("raw_minmax"):
         # the direction written as the documented STRING after construction (`task.minmax = "max"`): pydantic does not validate assignments, the field then holds the
@@ -185,6 +195,8 @@ def cont_task(dim=3, lo=-10.0, hi=10.0, obj="sphere", minmax="min", seed=None, *
 def task_view(task) -> dict:
     """what a caller can see of a task: its public fields and the search-space description derived from it (bounds, flattened variables)"""
     view = {"dump": task.model_dump(exclude={"data"})}
+    if isinstance(getattr(task, "data", None), dict) and "coords" in task.data:
+        view["user_data"] = np.asarray(task.data["coords"]).tolist()          # the part of `data` that is the user's own (the rest is this harness's bookkeeping)
     try:
         lb, ub = task.get_bounds()
         view["bounds"] = [np.asarray(lb, dtype=float).tolist(), np.asarray(ub, dtype=float).tolist()]
